@@ -325,20 +325,20 @@ theorem mtbdd_restrict_unique {L : TermOps T} (hne : L.zero ≠ L.one) (f vars r
 example : applyBin i64Ops .add (var i64Ops 0) (var i64Ops 1)
     = applyBin i64Ops .add (var i64Ops 1) (var i64Ops 0) := by decide +kernel
 
-/-! ## `F64` — partial
+/-! ## `F64`
 
-Lean's `Float` is opaque to the kernel, so the laws cannot be proved for `f64Ops`; they are the
-hypothesis `TerminalLaws f64Ops F64.Normal` of the instance below and are *tested* by the harness
-(`c10_mtbdd`, oracle `f64-law`, on a boundary set of 22 bit patterns including both zeros,
-denormals, infinities and several NaN payloads), as is the agreement of `f64Ops` with the Rust `F64`
-on all pairs of that set (stream comparison) and with native IEEE-754 + normalisation (oracle). -/
+`f64Ops` (`F64.lean`) computes on bit patterns with the exact binary64 model `Num/Ieee.lean` (no Lean
+`Float`).  The theorem below keeps its historic form — the laws as a hypothesis —; the hypothesis
+`TerminalLaws f64Ops F64.Normal` is *proved* in `PropertiesF64Bits.lean` (`f64_bits_terminal_laws`,
+by transfer from `PropertiesF64.lean`), which also states the unconditional lifting
+`mtbdd_apply_sem_f64_bits`.  The agreement of `f64Ops` with the Rust `F64` is compared bit for bit
+by the streams `mtbdd` and `f64arith`. -/
 
 /-- a normalised bit pattern: not `-0.0`, and NaN only in its canonical form -/
 def F64.Normal (b : UInt64) : Prop := F64.ofBits b = b
 
-/-- **partial**: the lifting for `F64` terminals, *assuming* the terminal laws for `f64Ops` (what is
-missing for the full statement is a proof of `TerminalLaws f64Ops F64.Normal` and of the
-correspondence of `f64Ops` with IEEE-754; both are tested, not proved). -/
+/-- the lifting for `F64` terminals, *assuming* the terminal laws for `f64Ops`; the hypothesis is
+discharged in `PropertiesF64Bits.lean` (`f64_bits_terminal_laws`, `mtbdd_apply_sem_f64_bits`). -/
 theorem mtbdd_apply_sem_f64_partial (H : TerminalLaws f64Ops F64.Normal) (op : Op)
     (f g : MT UInt64) (hf : f.All F64.Normal) (hg : g.All F64.Normal) (σ : Nat → Bool) :
     (applyBin f64Ops op f g).eval σ = f64Ops.sem op (f.eval σ) (g.eval σ) :=
